@@ -122,7 +122,8 @@ def _fresh_real(st):
 
 
 REG.add(Contract("optlang/interface.py", "Model.optimize", "C04", [("self", SOLVER_T())],
-                 [Case("any", ensures=lambda E: z3.BoolVal(True))], modifies=_solver_loc, assumed=True, key="Solver.optimize",
+                 [Case("any", ensures=lambda E: E.s1.objs[E.s1.objs[E["self"].oid]["attr:objective"].oid]["attr:value"].v != z3.Real("NaN_const"))],
+                 modifies=_solver_loc, assumed=True, key="Solver.optimize",
                  result="opaque",
                  note="optlang/GLPK optimize(): sets status and objective value; status optimal => value is the true optimum "
                       "(assumed, monitored by the bounded tier against an exact rational LP)"))
@@ -147,7 +148,8 @@ def _so_post_value(E):
         return z3.And(_so_optimal(E), xr_eq(E.eng.to_real(res), value_of(E.s1, E["self"]))) if isinstance(res, VReal) else z3.BoolVal(False)
     if not isinstance(res, VReal):
         return z3.BoolVal(False)
-    return z3.If(_so_optimal(E), xr_eq(res, value_of(E.s1, E["self"])), xr_eq(res, E.eng.to_real(ev)))
+    return z3.And(z3.If(_so_optimal(E), xr_eq(res, value_of(E.s1, E["self"])), xr_eq(res, E.eng.to_real(ev))),
+                  value_of(E.s1, E["self"]).v != z3.Real("NaN_const"))      # the solver's objective value is a number
 
 
 def _slim_cases():
@@ -173,7 +175,7 @@ def _slim_cases():
 
 
 _d = TReal()
-_d.default = VReal(0, z3.Real("NaN_passed_through"))   # float("nan") default: an unconstrained value that is only passed through
+_d.default = VReal(0, z3.Real("NaN_const"))   # float("nan") default: an unconstrained value that is only passed through
 _n = TNone()
 _n.default = NONE
 REG.add(Contract(MM, "Model.slim_optimize", "C04", [("self", MODEL_T()), ("error_value", _d), ("message", _n)], _slim_cases(),
